@@ -16,10 +16,11 @@ CHECK = {
     "harness": ["actor/zz_verif_c35.go"],
     "entries": [
         {"fn": P + "vC35_across", "replay": "model-only", "opts": {"unwind_mode": "assume"},
-         "opts_quick": {"loop_bounds": {LOOP: 6}}, "opts_thorough": {"loop_bounds": {LOOP: 16}}},
-        {"fn": P + "vC35_across_e2e", "replay": "model-only", "opts": {"unwind": 3, "unwind_mode": "assume"}},
+         "opts_quick": {"loop_bounds": {LOOP: 4}}, "opts_thorough": {"loop_bounds": {LOOP: 16}}},
+        {"fn": P + "vC35_across_e2e", "replay": "model-only", "opts": {"unwind_mode": "assume", "loop_bounds": {LOOP: 1}}},
         {"fn": P + "vC35_bypass", "replay": "model-only"},
     ],
+    "timeout_ms": {"quick": 400000, "thorough": 3000000},
     "opts": {"unwind": 20, "substitute": SUB, "fresh_solver": True},
     "stop": [k for k in SUB.keys() if k.startswith("(*" + P)],
     "explanation": "(*PID).deliverAcrossHandoff, (*PID).deliverBypassingHandoff, sleepWithinHandoff, isHandoffRetryable, (*actorSystem).isEndpointRelocating / relocationInFlight / recordRelocationHandoff and the real xsync.TTLMap (Set/Get/ActiveLen) behind relocatingEndpoints are executed symbolically. "
